@@ -8,7 +8,10 @@ def enabled_ops(state, T, widths=(1, 2, 3), allow_continue=False, allow_fresh=Tr
     cur = state["len"]
     if cur is None:
         return [["M", k] for k in range(1, T + 1)]
-    if allow_fresh:
+    if allow_fresh == "shorter":
+        for k in range(1, cur):
+            ops.append(["M", k])
+    elif allow_fresh:
         for k in range(1, T + 1):
             ops.append(["M", k])
     for k in range(cur, T + 1):
